@@ -242,6 +242,35 @@ func runC19(w *h.W, batch int) {
 				w.Held(fmt.Sprintf("store|dry|f%d|%d|a%d", len(groups), min(len(exp.IDs), 2), len(ar.Aggs)), len(exp.IDs) > 0)
 			}
 		}
+		// the same clean search under strace: every persisted file (request info, partial results) is published by rename only
+		// after its content was fsynced (syscall level, independent of the hooks)
+		if qi == 0 {
+			sdesc := map[string]any{"config": cfg, "request": ar, "surface": "store", "restart": "none (strace)"}
+			if w.Begin(sdesc) {
+				copyDir(pristine, scratch)
+				spec := phaseSpec{Steps: []phaseStep{{Op: "async_start", Arg: string(arg)}, {Op: "async_wait", Arg: string(arg)}}, Dir: scratch, Work: work, Opt: opt,
+					Out: filepath.Join(work, "strace.out"), Events: filepath.Join(work, "strace.events")}
+				os.Remove(spec.Out)
+				os.Remove(spec.Events)
+				sp := filepath.Join(work, "strace.spec")
+				writeSpec(sp, spec)
+				trace := filepath.Join(work, "strace.trace")
+				os.Remove(trace)
+				sres := h.SpawnPhaseWrapped(work, []string{"strace", "-f", "-o", trace, "-e", straceDurabilityTrace}, "store", 3*time.Minute, nil, sp)
+				rd := checkRenameDurability(trace,
+					func(dst string) bool { return strings.HasSuffix(dst, ".info") || strings.HasSuffix(dst, ".qpr") },
+					func(string) []string { return nil })
+				w.Count("strace_publications_checked", int64(rd.Renames))
+				switch {
+				case rd.Violation != "":
+					w.Violation("C19:syscall-order", map[string]any{"diff": rd.Violation, "case": sdesc})
+				case sres.TimedOut || sres.ExitCode != 0 || rd.Renames == 0 || !rd.Recognised:
+					w.Inconclusive(fmt.Sprintf("strace monitor: exit=%d renames=%d writes recognised=%v", sres.ExitCode, rd.Renames, rd.Recognised))
+				default:
+					w.Held(fmt.Sprintf("store|strace|%d", min(rd.Renames, 8)), true)
+				}
+			}
+		}
 		type inj struct {
 			point string
 			k     int64
